@@ -10,7 +10,8 @@ import time
 from .. import docgen, e2e
 from ..keyenc import key, unkey
 from ..runner import Check
-from ..translate import versions
+from ..translate import kwsites, versions
+from . import c19_kw
 
 # ---------------------------------------------------------------- authored table (Python side, independent of
 # lean/Dcg/Model/Version.lean; the two are compared on every run). Minor version of Python 3 that first
@@ -131,6 +132,14 @@ def oracle_module(code: str, kind: str, minor: int) -> list[tuple[dict, str]]:
             for d in n.decorator_list:
                 if isinstance(d, ast.Call) and ast.unparse(d.func).split(".")[-1] == "dataclass" and any(k.arg == "kw_only" for k in d.keywords) and minor < 10:
                     out.append(({"oracle": "kw_only", "target": target}, f"@{ast.unparse(d)} on class {n.name} needs Python 3.10"))
+    if minor < CONSTRUCT_SINCE["has_kw_only_dataclass"]:   # field(kw_only=…) of the standard dataclasses module: same construct, same version
+        dc_field = {a.asname or a.name for n in ast.walk(tree) if isinstance(n, ast.ImportFrom) and n.module == "dataclasses" and n.level == 0
+                    for a in n.names if a.name == "field"}
+        for n in ast.walk(tree):
+            if isinstance(n, ast.Call) and any(k.arg == "kw_only" for k in n.keywords) and (
+                    (isinstance(n.func, ast.Name) and n.func.id in dc_field) or ast.unparse(n.func) == "dataclasses.field"):
+                out.append(({"oracle": "kw_only_field", "target": target}, f"`{ast.unparse(n)[:80]}`: dataclasses.field(kw_only=…) needs Python 3.10"))
+                break
     if minor < 10:
         lazy: set[int] = set()  # annotation sub-trees that are never evaluated
         if future_annotations and kind not in RUNTIME_ANNOTATION_KINDS:
@@ -164,6 +173,12 @@ OPTION_POOL = [
 ]
 
 
+def option_flags(opts: dict) -> dict:
+    """the options of the call that ASK for a version-dependent construct: part of every failure's classification, so that a
+    recorded finding about `the option is not refused for an old target` can never absorb output nobody asked for"""
+    return {"union_operator_option": bool(opts.get("use_union_operator")), "keyword_only_option": bool(opts.get("keyword_only"))}
+
+
 def case(ck: Check, camp, kind: str, minor: int, doc, input_kind: str, opts: dict) -> None:
     camp.evaluations += 1
     camp.hit(f"kind:{kind}")
@@ -171,11 +186,7 @@ def case(ck: Check, camp, kind: str, minor: int, doc, input_kind: str, opts: dic
     camp.hit(f"input:{input_kind}")
     for o in opts:
         camp.hit(f"opt:{o}")
-    o2 = dict(opts)
-    if o2.get("enum_field_as_literal"):
-        from datamodel_code_generator.parser import LiteralType
-
-        o2["enum_field_as_literal"] = LiteralType(o2["enum_field_as_literal"])
+    o2 = c19_kw.prepared_opts(opts)
     res = e2e.run_generate(doc, input_file_type=input_kind, model=kind, opts=o2, target=f"3.{minor}")
     inp = {"kind": kind, "minor": minor, "input_kind": input_kind, "opts": opts, "doc": doc}
     if res.hang:
@@ -192,8 +203,13 @@ def case(ck: Check, camp, kind: str, minor: int, doc, input_kind: str, opts: dic
         return
     camp.distinct.add((kind, minor, input_kind, json.dumps(opts, sort_keys=True), hash(json.dumps(doc, sort_keys=True) if not isinstance(doc, str) else doc)))
     for cls, obs in found:
-        cls = {**cls, "input_kind": input_kind, "kind": kind, "via": "generate", "union_operator_option": bool(opts.get("use_union_operator"))}
-        ck.fail(cls, inp, obs, f"only names and constructs available in Python 3.{minor}")
+        cls = {**cls, "input_kind": input_kind, "kind": kind, "via": "generate", **option_flags(opts)}
+        if cls.get("oracle") == "kw_only_field":
+            cls["schema_asks"] = c19_kw.schema_asks_field_kw_only(doc, opts)
+        if ck.fail(cls, inp, obs, f"only names and constructs available in Python 3.{minor}") and len(ck.failures) == 1 and not isinstance(doc, str):
+            small = c19_kw.shrink_doc(inp, cls)   # the replay file carries the first failure: make it a small document
+            if small is not None:
+                ck.failures[0].input = small
     if not found and len(camp.samples) < 3:
         imports = sorted({f"{n.module}.{a.name}" for n in ast.walk(ast.parse(res.code or next(iter(res.files.values())))) if isinstance(n, ast.ImportFrom) and n.module for a in n.names})
         camp.samples.append({"kind": kind, "target": f"3.{minor}", "input": input_kind, "opts": opts, "imports": imports})
@@ -307,7 +323,7 @@ def sequence_fail(ck: Check, seq: list[dict], cls: dict, obs: str) -> None:
     """`seq[-1]` fails after `seq[:-1]` and not alone"""
     c = seq[-1]
     earlier = ", ".join(f"{x['kind']}@3.{x['minor']}" for x in seq[:-1]) or "no earlier call"
-    ck.fail({**cls, "input_kind": c["input_kind"], "kind": c["kind"], "via": "generate-sequence", "union_operator_option": bool(c["opts"].get("use_union_operator"))},
+    ck.fail({**cls, "input_kind": c["input_kind"], "kind": c["kind"], "via": "generate-sequence", **option_flags(c["opts"])},
             {"kind": "sequence", "cases": seq},
             f"call #{len(seq)} of one interpreter ({c['kind']}, target 3.{c['minor']}) after [{earlier}]: {obs}; the same call alone in a fresh interpreter is fine",
             f"only names and constructs available in Python 3.{c['minor']}, whatever was generated earlier in the process")
@@ -329,7 +345,7 @@ def judge_and_report(ck: Check, camp, cases: list[dict], res: list[dict]) -> Non
         c = cases[i]
         if is_alone:   # not a matter of history: the same failure as the single call (same classification, same replay form)
             camp.hit("fails-also-alone")
-            full = {**cls, "input_kind": c["input_kind"], "kind": c["kind"], "via": "generate", "union_operator_option": bool(c["opts"].get("use_union_operator"))}
+            full = {**cls, "input_kind": c["input_kind"], "kind": c["kind"], "via": "generate", **option_flags(c["opts"])}
             ck.fail(full, {"kind": c["kind"], "minor": c["minor"], "input_kind": c["input_kind"], "opts": c["opts"], "doc": c["doc"]}, obs,
                     f"only names and constructs available in Python 3.{c['minor']}")
             continue
@@ -438,6 +454,20 @@ def search(ck: Check) -> None:
     campaign_cli_guard(ck)
 
 
+def search_dispatch(ck: Check) -> None:
+    """the keyword-only search first when the site table (or its correspondence) is what broke, the general one otherwise"""
+    kw_first = "kw_only_sites_guarded" in ck.broken or "keyword_only_needs_option_or_target" in ck.broken or any(
+        "keyword-only" in d.campaign or "site table" in d.campaign for d in ck.disagreements)
+    try:
+        kw_first = kw_first or ck.driver.run(["version.refutekw"])[0].startswith("ok ")
+    except Exception:  # noqa: BLE001
+        pass
+    for hook in ([c19_kw.search_kw, search] if kw_first else [search, c19_kw.search_kw]):
+        hook(ck)
+        if ck.failures:
+            return
+
+
 # ---------------------------------------------------------------- known findings / replay
 WITNESS_SDL = "type A {\n  x: String\n}\nunion U = A\ntype Query {\n  a: A\n}\n"
 WITNESS_DOC = {"title": "M", "type": "object", "properties": {"a": {"type": ["integer", "string"]}}}
@@ -473,6 +503,7 @@ def known_findings(ck: Check) -> None:
 def run(ck: Check) -> None:
     quick = ck.tier == "quick"
     ck.translate("Versions", versions.generate())
+    ck.translate("KwSites", kwsites.generate())
     ck.prove()
     ck.assumptions += [
         "only Python 3.12 is installed: what 3.9/3.10/3.11/3.13 provide is an authored table (Lean: Model/Version.lean, Python: PY_SINCE), "
@@ -487,7 +518,9 @@ def run(ck: Check) -> None:
     campaign_cli_guard(ck)
     campaign_e2e(ck, 25 if quick else 250, 5 if quick else 50)
     campaign_sequences(ck, 3 if quick else 9, 2 if quick else 8)
-    ck.search_hooks.append(search)
+    c19_kw.campaign_sites(ck)
+    c19_kw.campaign_kw_flow(ck, 15 if quick else 150)
+    ck.search_hooks.append(search_dispatch)
     known_findings(ck)
 
 
